@@ -178,6 +178,19 @@ def observe_accessors(t, rec):
         rec["reopen_mid"] = "raised " + common.exc_info(e)
 
 
+def observe_get(t, rec):
+    """C04: every live block read through the open object right after the call"""
+    out = {}
+    for i, e in enumerate(t.entries):
+        ty = int(e.type.value)
+        if ty != 0:
+            out[ty] = fetch(lambda: t.get_block(i))
+            byty = fetch(lambda: t.get_block(e.type))
+            if byty != out[ty]:
+                out[ty] = ("lookup by type and by slot differ", out[ty], byty)
+    rec["get_now"] = out
+
+
 def block_id(b):
     try:
         f = io.BytesIO()
@@ -215,6 +228,8 @@ def run_cases(chk, specs, want_acc):
             rec["path"] = path
             if want_acc is True:
                 observe_accessors(t, rec)
+            elif want_acc == "readback":
+                observe_get(t, rec)
         try:
             c.steps = container.run_impl(path, contexts, observe=obs)
         except Exception as e:
@@ -450,6 +465,8 @@ def judge(chk, pid, c):
             found = content_violation(d, ghost)
             if found is None and "readback" in s:
                 found = readback_violation(s["readback"], ghost)
+            if found is None and "get_now" in s:
+                found = readback_violation(s["get_now"], ghost, "through the open object right after the call")
             mt = [[e[0], e[1], e[4], e[5], e[7]] for e in m["tab"] if e[0] != 0]
             dt = [[e[0], e[1], e[4], e[5], e[7]] for e in d["tab"] if e[0] != 0]
             if mt != dt or d["data"] != m["data"]:
@@ -636,6 +653,8 @@ RULES = {
 def run(chk, pid):
     specs = gen_specs(chk, pid)
     want_acc = True if pid in ("C10", "C11") else "readback" if pid == "C04" else False
+    if pid == "C10":
+        specs = gap_specs(chk, with_remove=True) + specs
     if pid == "C03":
         specs = f3b_specs(chk) + specs
     if pid == "C07":
@@ -686,7 +705,7 @@ def check_compactb(chk, c):
             chk.violation("C09: Coq compactb and the harness oracle disagree on a file", replay_of(c), False)
 
 
-def readback_violation(rb, ghost):
+def readback_violation(rb, ghost, when="after reopen"):
     """C04: reading a block after reopen returns content equal to what was stored (the stored bytes decoded
     independently of the container)"""
     if "error" in rb:
@@ -702,7 +721,7 @@ def readback_violation(rb, ghost):
         except Exception as x:
             continue            # the stored bytes are not a decodable block (not this property's business)
         if rb.get(ty) != want:
-            return "block type %d read back after reopen (%r) differs from the stored content" % (ty, rb.get(ty))
+            return "block type %d read back %s (%r) differs from the stored content" % (ty, when, rb.get(ty))
     return None
 
 
@@ -720,7 +739,7 @@ def f3b_specs(chk):
     return [("sound but not compact: unused slots carry offset 0", p, [[("add", ev, None)]], "F3b-unused-offset-zero finding")]
 
 
-def gap_specs(chk):
+def gap_specs(chk, with_remove=False):
     """C07, cause 'an unused slot lies between live blocks': files with a hole in the table (not reachable by
     the library's own histories, but well-formed); add / replace / set must raise and change nothing"""
     import struct
@@ -739,7 +758,8 @@ def gap_specs(chk):
         open(p, "wb").write(bytes(raw))
         live = [k for i, k in enumerate(kinds) if i != gap_at]
         before = [k for i, k in enumerate(kinds) if i < gap_at]
-        for op in ([("replace", rng.choice(pool[k]), None) for k in live if k in pool] +
+        rem = [("remove", blocks.TY[k]) for k in live] if with_remove else []
+        for op in (rem + [("replace", rng.choice(pool[k]), None) for k in live if k in pool] +
                    [("set", rng.choice(pool[k])) for k in live if k in pool and k in SETTER] +
                    [("add", container.small_block("PC", rng, 1), None), ("set", container.small_block("PD", rng, 1))]):
             out.append(("unused slot %d between live blocks, N=%d" % (gap_at, n), p, [[op, ("add", container.small_block("CA", rng, 1), "after")]],
